@@ -67,6 +67,7 @@ package distance
 //@   arith bv
 //@ lemma fsub_antisym(a float32, b float32): sameFloat(b-a, -(a-b)) || (a-b == 0 && b-a == 0)
 //@   property C20
+//@   timeout 90
 //@   arith bv
 //@ lemma fsq_neg(d float32): sameFloat((-d)*(-d), d*d)
 //@   property C20
